@@ -1,19 +1,52 @@
 /* units remove_option_b / insert_option_b / update_option_b / add_option_b  (bounded tier, -DWHICH=1..4)
  *
  * C04/C01: the in-place option editors against the abstract (token, ordered option list, payload) model.
- * The message buffer has a constant capacity; position, lengths, deltas (0..65535, so every 13/269 header
- * growth/shrink case), option numbers, payload presence and allocator behaviour are symbolic.
- * Pre:  the options region decodes (independent spec walk) to at most KMAX-1 options.
- * Post: the region decodes to exactly the model edit, token and payload bytes unchanged, PDU invariant holds.
+ *
+ * Bounded by ENUMERATED LAYOUTS: the message before the edit is constructed from compile-time parameters
+ *   NOPT (1..3 options), C0/C1/C2 (delta encoding class of each option: 0 = nibble, 1 = one extension byte,
+ *   2 = two extension bytes), L0/L1/L2 (value lengths), HASP (payload of 2 bytes present), TK (token bytes),
+ *   NEWLEN (length of the new value for insert/update/add)
+ * so every offset is a constant for the solver, while the delta VALUES inside their class (hence option
+ * numbers 0..65535 and every 13/269 header growth/shrink case of the follower), all value/token/payload bytes,
+ * the named option number, the slack in alloc_size (forces or avoids realloc) and allocator failure stay symbolic.
+ * The engine runs one verification per layout (unit .json "variants").
+ * Post: an independent RFC 7252 3.1 walk over the result decodes exactly the model edit; token and payload
+ * bytes unchanged; PDU invariant holds; nothing written beyond alloc_size.
  */
 #include "coap3/coap_libcoap_build.h"
 #include "spec/vin.h"
-#ifndef CAP
-#define CAP 32
+#ifndef NOPT
+#define NOPT 2
 #endif
-#ifndef KMAX
+#ifndef C0
+#define C0 0
+#endif
+#ifndef C1
+#define C1 0
+#endif
+#ifndef C2
+#define C2 0
+#endif
+#ifndef L0
+#define L0 1
+#endif
+#ifndef L1
+#define L1 1
+#endif
+#ifndef L2
+#define L2 1
+#endif
+#ifndef HASP
+#define HASP 1
+#endif
+#ifndef TK
+#define TK 1
+#endif
+#ifndef NEWLEN
+#define NEWLEN 2
+#endif
+#define CAP 64
 #define KMAX 4
-#endif
 #define PDU_MAXA CAP
 #define PDU_FIXED_BLOCK (CAP + 6)
 #define ALLOC_CAP (CAP + 6)
@@ -22,40 +55,67 @@
 #include "spec/optlist_model.h"
 #include "src/coap_pdu.c"
 #include "src/coap_option.c"
+#include "src/coap_encode.c"
 #include "stubs/alloc_bounded.h"
 #include "stubs/mem_loops.h"
 
-/* value bytes of option i in message a equal those of option j in message b (ghost index g) */
+#define CLS_OK(c, d) ((c) == 0 ? (d) < 13u : (c) == 1 ? ((d) >= 13u && (d) < 269u) : ((d) >= 269u && (d) <= 65535u))
+/* independent encoder of one option header (RFC 7252 3.1) for a compile-time delta class and a value length < 13;
+ * value bytes are left as they are.  Evaluates to the header size (a constant). */
+#define SPEC_PUT_HEADER(b, cls, d, l) \
+  ((cls) == 0 ? ((b)[0] = (uint8_t)(((d) << 4) | (l)), 1u) : \
+   (cls) == 1 ? ((b)[0] = (uint8_t)((13u << 4) | (l)), (b)[1] = (uint8_t)((d) - 13u), 2u) : \
+                ((b)[0] = (uint8_t)((14u << 4) | (l)), (b)[1] = (uint8_t)(((d) - 269u) >> 8), (b)[2] = (uint8_t)(((d) - 269u) & 0xff), 3u))
 #define SAME_VALUE(a, ma, i, b, mb, j, g) \
   ((ma).o[i].len == (mb).o[j].len && ((g) >= (ma).o[i].len || (a)[(ma).o[i].vpos + (g)] == (b)[(mb).o[j].vpos + (g)]))
 #define SAME_OPT(a, ma, i, b, mb, j, g) ((ma).o[i].num == (mb).o[j].num && SAME_VALUE(a, ma, i, b, mb, j, g))
 
 void harness(void) {
-  HARNESS_PDU(pdu);
-  ASSUME(max_size != 0 && max_size <= CAP);          /* growth stays inside the bounded domain */
-  ASSUME(tok_len <= 2);
-  pdu->hdr_size = 0; pdu->session = NULL;
+  /* ---- symbolic scalars */
+  IN_SCALAR(uint32_t, d0); IN_SCALAR(uint32_t, d1); IN_SCALAR(uint32_t, d2);
   IN_SCALAR(uint16_t, number);
-  IN_SCALAR(size_t, len);
-  IN_SCALAR(size_t, g);                               /* ghost byte index */
-  ASSUME(len <= 3);
-  IN_BYTES(val, 4);
-  /* ---- precondition: well-formed option region, marker before payload, max_opt = last number */
-  struct optlist_m pre;
-  size_t opt_end = data_off ? data_off - 1 : used_size;
-  ASSUME(spec_decode_options(pdu->token, pdu->e_token_length, opt_end, &pre));
-  ASSUME(pre.n <= KMAX - 1 && pre.stop == opt_end);
-  ASSUME(!data_off || pdu->token[opt_end] == 0xFF);
-  ASSUME(max_opt == (pre.n ? pre.o[pre.n - 1].num : 0));
-  /* snapshot of the message before the edit */
+  IN_SCALAR(size_t, slack);                 /* alloc_size - used_size */
+  IN_SCALAR(size_t, g);                     /* ghost byte index */
+  IN_SCALAR(uint8_t, pcode);
+  IN_BYTES(val, 24);
+  IN_BUF_FIXED(blk, PDU_FIXED_BLOCK);
+  ASSUME(CLS_OK(C0, d0) && CLS_OK(C1, d1) && CLS_OK(C2, d2));
+  ASSUME((uint64_t)d0 + (NOPT > 1 ? d1 : 0) + (NOPT > 2 ? d2 : 0) <= 65535u);
+  ASSUME(slack <= 8);
+  /* ---- construct the message: token | options | [FF payload] at constant offsets */
+  uint8_t *tokp = blk + 6;
+  struct optlist_m pre; pre.n = NOPT;
+  size_t p = TK;
+  uint32_t num = 0;
+#define PUT_OPT(i, cls, d, l) do { num += (d); pre.o[i].num = num; pre.o[i].len = (l); pre.o[i].pos = p; \
+    p += SPEC_PUT_HEADER(tokp + p, cls, d, l); pre.o[i].vpos = p; p += (l); } while (0)
+  PUT_OPT(0, C0, d0, L0);
+#if NOPT > 1
+  PUT_OPT(1, C1, d1, L1);
+#endif
+#if NOPT > 2
+  PUT_OPT(2, C2, d2, L2);
+#endif
+  pre.stop = p;
+  size_t data_off = 0;
+  if (HASP) { tokp[p] = 0xFF; data_off = p + 1; p += 3; }
+  const size_t used_size = p;
+  ASSUME(used_size + slack <= CAP);
+  coap_pdu_t *pdu = VH_PDU_ALLOC(); ASSUME(pdu != NULL);
+  pdu->max_hdr_size = 6; pdu->hdr_size = 0; pdu->session = NULL; pdu->alloc_size = used_size + slack; pdu->max_size = CAP;
+  pdu->used_size = used_size; pdu->token = tokp; pdu->actual_token.length = TK; pdu->actual_token.s = tokp;
+  pdu->e_token_length = TK; pdu->data = data_off ? tokp + data_off : NULL; pdu->max_opt = (uint16_t)num;
+  pdu->type = COAP_MESSAGE_CON; pdu->code = (coap_pdu_code_t)pcode; pdu->mid = 1;
+  const size_t alloc_size = pdu->alloc_size;
+  const uint16_t max_opt = pdu->max_opt;
   uint8_t before[CAP];
-  for (size_t i = 0; i < CAP; i++) before[i] = i < used_size ? pdu->token[i] : 0;
-  size_t pay_len = data_off ? used_size - data_off : 0;
+  for (size_t i = 0; i < CAP; i++) before[i] = tokp[i];
+  const size_t pay_len = data_off ? used_size - data_off : 0;
   G_old_doff = data_off;
+  const size_t len = NEWLEN;
 
-  /* index of the first option with that number / first option with a larger number */
   int jeq = -1, jgt = -1;
-  for (int i = KMAX - 1; i >= 0; i--) if (i < pre.n) { if (pre.o[i].num == number) jeq = i; if (pre.o[i].num > number) jgt = i; }
+  for (int i = NOPT - 1; i >= 0; i--) { if (pre.o[i].num == number) jeq = i; if (pre.o[i].num > number) jgt = i; }
 
 #if WHICH == 1
   int r = coap_remove_option(pdu, number);
@@ -76,36 +136,35 @@ void harness(void) {
   size_t doff2 = pdu->data ? (size_t)(pdu->data - pdu->token) : 0;
   size_t opt_end2 = doff2 ? doff2 - 1 : pdu->used_size;
   CHECK(pdu->used_size <= pdu->alloc_size && pdu->alloc_size <= pdu->max_size, "editor keeps used_size <= alloc_size <= max_size");
-  /* canary: without a reallocation no byte beyond alloc_size may be written (blocks are over-sized in this tier) */
-  CHECK(pdu->token != blk + max_hdr_size || g < alloc_size || g >= CAP || blk[max_hdr_size + g] == blk_in.b[max_hdr_size + g], "editor writes nothing beyond alloc_size");
+  CHECK(pdu->token != tokp || g < alloc_size || g >= CAP || tokp[g] == before[g], "editor writes nothing beyond alloc_size");
   CHECK((doff2 == 0) == (data_off == 0) && (!doff2 || (doff2 > pdu->e_token_length && doff2 < pdu->used_size)), "editor keeps the payload pointer inside the message");
-  CHECK(pdu->e_token_length == tok_len + BIAS(tok_len) && (g >= pdu->e_token_length || pdu->token[g] == before[g]), "editor leaves the token untouched");
+  CHECK(pdu->e_token_length == TK && (g >= TK || pdu->token[g] == before[g]), "editor leaves the token untouched");
   CHECK(!doff2 || (pdu->token[doff2 - 1] == 0xFF && pdu->used_size - doff2 == pay_len && (g >= pay_len || pdu->token[doff2 + g] == before[data_off + g])), "editor leaves payload marker and payload bytes unchanged");
   int ok = spec_decode_options(pdu->token, pdu->e_token_length, opt_end2, &post);
   CHECK(ok && post.stop == opt_end2, "after the edit the options region is again a sequence of well-formed options ending at the marker/end");
   ASSUME(ok);
   CHECK(pdu->max_opt == (post.n ? post.o[post.n - 1].num : 0), "max_opt is the number of the last option");
 #define UNCHANGED_LIST() (post.n == pre.n && \
-      (0 >= pre.n || SAME_OPT(pdu->token, post, 0, before, pre, 0, g)) && (1 >= pre.n || SAME_OPT(pdu->token, post, 1, before, pre, 1, g)) && \
-      (2 >= pre.n || SAME_OPT(pdu->token, post, 2, before, pre, 2, g)))
+      (0 >= NOPT || SAME_OPT(pdu->token, post, 0, before, pre, 0, g)) && (1 >= NOPT || SAME_OPT(pdu->token, post, 1, before, pre, 1, g)) && \
+      (2 >= NOPT || SAME_OPT(pdu->token, post, 2, before, pre, 2, g)))
 #if WHICH == 1
   CHECK(r == (jeq >= 0), "coap_remove_option succeeds iff an option with that number exists");
   if (r) {
     CHECK(post.n == pre.n - 1, "coap_remove_option removes exactly one option");
-    for (int i = 0; i < KMAX - 1; i++) if (i < post.n) {
+    for (int i = 0; i < NOPT - 1; i++) if (i < post.n) {
       int src = i < jeq ? i : i + 1;
       CHECK(SAME_OPT(pdu->token, post, i, before, pre, src, g), "coap_remove_option: every other option keeps number, value and relative position");
     }
   } else {
     CHECK(UNCHANGED_LIST(), "coap_remove_option: nothing changes when the option is absent");
   }
-  MUSTFAIL(!(r && jeq == 0 && pre.n == 3 && data_off), "remove_first_of_three_with_payload_reachable");
-  MUSTFAIL(!(r && pre.n >= 2 && jeq == 0 && pre.o[1].num - pre.o[0].num < 13 && pre.o[1].num >= 269), "delta_grows_by_two_reachable");
+  MUSTFAIL(!r, "remove_reachable");
+  MUSTFAIL(r, "absent_reachable");
 #elif WHICH == 2
   if (r) {
     CHECK(r == HDRSZ(number - (jgt > 0 ? pre.o[jgt - 1].num : 0), len) + len, "coap_insert_option returns the encoded size of the new option");
     CHECK(post.n == pre.n + 1, "coap_insert_option adds exactly one option");
-    for (int i = 0; i < KMAX; i++) if (i < post.n) {
+    for (int i = 0; i < NOPT + 1; i++) if (i < post.n) {
       if (i < jgt) CHECK(SAME_OPT(pdu->token, post, i, before, pre, i, g), "coap_insert_option: options before the insertion point unchanged");
       else if (i == jgt) CHECK(post.o[i].num == number && post.o[i].len == len && (g >= len || pdu->token[post.o[i].vpos + g] == val.b[g]), "coap_insert_option: the new option sits before the first larger number with the given value");
       else CHECK(SAME_OPT(pdu->token, post, i, before, pre, i - 1, g), "coap_insert_option: options after the insertion point keep number and value");
@@ -113,29 +172,29 @@ void harness(void) {
   } else {
     CHECK(UNCHANGED_LIST(), "coap_insert_option: a refused insertion changes nothing");
   }
-  MUSTFAIL(!(r && jgt == 0 && pre.o[0].num >= 269 && pre.o[0].num - number < 13), "follower_shrinks_by_two_reachable");
+  MUSTFAIL(!r, "insert_reachable");
   MUSTFAIL(r != 0, "refusal_reachable");
 #elif WHICH == 3
   if (r) {
     CHECK(post.n == pre.n, "coap_update_option keeps the number of options");
-    for (int i = 0; i < KMAX - 1; i++) if (i < post.n) {
+    for (int i = 0; i < NOPT; i++) {
       if (i == jeq) CHECK(post.o[i].num == number && post.o[i].len == len && (g >= len || pdu->token[post.o[i].vpos + g] == val.b[g]), "coap_update_option: the named option has the new value");
       else CHECK(SAME_OPT(pdu->token, post, i, before, pre, i, g), "coap_update_option: every other option keeps number, value and position");
     }
   } else {
     CHECK(UNCHANGED_LIST(), "coap_update_option: a refused update changes nothing");
   }
-  MUSTFAIL(!(r && pre.n == 3 && jeq == 1 && data_off && len == 3 && pre.o[1].len == 0), "grow_middle_with_payload_reachable");
+  MUSTFAIL(!r, "update_reachable");
   MUSTFAIL(r != 0, "refusal_reachable");
 #else
   if (r) {
     CHECK(r == HDRSZ(number - max_opt, len) + len, "coap_add_option_internal returns the encoded size");
-    CHECK(post.n == pre.n + 1 && post.o[pre.n].num == number && post.o[pre.n].len == len && (g >= len || pdu->token[post.o[pre.n].vpos + g] == val.b[g]), "coap_add_option_internal appends the option with the given number and value");
-    CHECK((0 >= pre.n || SAME_OPT(pdu->token, post, 0, before, pre, 0, g)) && (1 >= pre.n || SAME_OPT(pdu->token, post, 1, before, pre, 1, g)) && (2 >= pre.n || SAME_OPT(pdu->token, post, 2, before, pre, 2, g)), "coap_add_option_internal leaves the earlier options unchanged");
+    CHECK(post.n == pre.n + 1 && post.o[NOPT].num == number && post.o[NOPT].len == len && (g >= len || pdu->token[post.o[NOPT].vpos + g] == val.b[g]), "coap_add_option_internal appends the option with the given number and value");
+    CHECK((0 >= NOPT || SAME_OPT(pdu->token, post, 0, before, pre, 0, g)) && (1 >= NOPT || SAME_OPT(pdu->token, post, 1, before, pre, 1, g)) && (2 >= NOPT || SAME_OPT(pdu->token, post, 2, before, pre, 2, g)), "coap_add_option_internal leaves the earlier options unchanged");
   } else {
     CHECK(UNCHANGED_LIST(), "coap_add_option_internal: a refused option changes nothing");
   }
-  MUSTFAIL(!(r && pre.n == 3), "append_fourth_reachable");
+  MUSTFAIL(!r, "append_reachable");
   MUSTFAIL(r != 0, "refusal_reachable");
 #endif
 }
